@@ -469,6 +469,12 @@ class FuncAlias(Structured):
                 if f.id in ('max', 'min') and args:
                     return Val(frozenset().union(*[a.own | a.elem for a in args]), frozenset().union(*[a.elem for a in args]))
                 return Val(FRESH, FRESH, 'scalar')
+            if f.id == 'reduce' and len(args) >= 2:
+                # without an initial value a one-element sequence is handed back as it is: the result may BE an element of the sequence
+                seq = args[1]
+                init = args[2] if len(args) > 2 else None
+                own = (seq.elem | FRESH) if init is None else (init.own | FRESH)
+                return Val(own, own, seq.ekind)
             if f.id in ('zip', 'enumerate', 'filter', 'map', 'reduce') and args:
                 return Val(FRESH, frozenset().union(*[a.elem | a.own for a in args]), 'list')
             if f.id in ('defaultdict', 'OrderedDict'):
